@@ -76,6 +76,19 @@ MkManyCase(id, rs) ==
   [id |-> id, regex |-> rs,
    cmds |-> <<[kind |-> "find", amt |-> [k |-> "all"], body |-> ToPattern(rs)]>>,
    srcbytes |-> FindAllAt \o RSrcSeq(rs) \o <<47>>, resrc |-> RSrcSeq(rs), texts |-> ManyTexts]
-ASSUME ndJsonSerialize(OutFile, [i \in 1..Len(All) |-> MkRegexCase(i, All[i])] \o [i \in 1..Len(ManyGroups) |-> MkManyCase(Len(All) + i, ManyGroups[i])])
+(* one regular expression written as several literals in a row: the groups  *)
+(* are numbered through the whole command, whatever the literals' texts      *)
+SplitPairs == << << <<RGrp("cap", "_1", <<RC(ca)>>)>>, <<RGrp("cap", "_2", <<RC(ca)>>)>> >>,
+                 << <<RGrp("cap", "_1", <<RDot>>)>>, <<RGrp("cap", "_2", <<RDot>>), RRef("_1")>> >>,
+                 << <<RGrp("cap", "_1", <<RC(ca)>>), RGrp("cap", "_2", <<RC(cb)>>)>>, <<RGrp("cap", "_3", <<RC(ca)>>), RRef("_2")>> >>,
+                 << <<RC(ca), RGrp("cap", "_1", <<RDot>>)>>, <<RC(ca), RGrp("cap", "_2", <<RDot>>)>> >>,
+                 << <<RGrp("non", "", <<RC(ca)>>)>>, <<RGrp("cap", "_1", <<RC(cb)>>), RRef("_1")>> >> >>
+MkSplitCase(id, pr) ==
+  [id |-> id, regex |-> pr[1] \o pr[2],
+   cmds |-> <<[kind |-> "find", amt |-> [k |-> "all"], body |-> ToPattern(pr[1] \o pr[2])]>>,
+   srcbytes |-> FindAllAt \o RSrcSeq(pr[1]) \o <<47, 32, 64, 47>> \o RSrcSeq(pr[2]) \o <<47>>, resrc |-> RSrcSeq(pr[1] \o pr[2]),
+   split |-> TRUE, sigma |-> SetToSeq({ca, cb, c1}), lo |-> 1, hi |-> IF Tier = "quick" THEN 4 ELSE 5]
+ASSUME ndJsonSerialize(OutFile, [i \in 1..Len(All) |-> MkRegexCase(i, All[i])] \o [i \in 1..Len(ManyGroups) |-> MkManyCase(Len(All) + i, ManyGroups[i])]
+                                  \o [i \in 1..Len(SplitPairs) |-> MkSplitCase(Len(All) + Len(ManyGroups) + i, SplitPairs[i])])
 ASSUME PrintT(<<"cases", Len(All)>>)
 =============================================================================
